@@ -496,7 +496,8 @@ func (g *govGen) block(h int64, st *GState, maxTxs int) []govTx {
 	var out []govTx
 	switch g.script {
 	case "s19":
-		// minimal witness of S19: an outsider expires a proposal in its funding stage
+		// regression for the repaired S19 (KF-C14-1): an outsider's EXPIRE_VOTES on a proposal in its
+		// funding stage must be refused without any effect
 		switch h {
 		case 1, 2:
 			return nil
@@ -511,7 +512,8 @@ func (g *govGen) block(h int64, st *GState, maxTxs int) []govTx {
 		}
 	case "boundary":
 		// pass percentage 67, powers 33/33/34: one NO vote of power 33 is exactly the boundary
-		// (100-33)/100 = 67/100, where the float expression (1.0 - 0.33) < 0.67 is true
+		// (100-33)/100 = 67/100; the proposal must stay undecided (the float expression
+		// (1.0 - 0.33) < 0.67 used before the repair was true)
 		switch h {
 		case 1, 2:
 			return nil
